@@ -76,7 +76,7 @@ void Ctx::violation(const Str &finding, const Str &enc, const Str &detail) {
     n_viol_total++;
     uint64_t &c = finding_counts[finding];
     c++;
-    if (c <= 25) { Violation v; v.finding = finding; v.enc = enc; v.detail = detail; viols.push_back(v); }
+    if (c <= (uint64_t)(getenv("VERIF_DUMP") ? 100000 : 25)) { Violation v; v.finding = finding; v.enc = enc; v.detail = detail; viols.push_back(v); }
 }
 
 // ---------------------------------------------------------------- crash capture
@@ -269,6 +269,7 @@ int main(int argc, char **argv) {
             kf_json += jstr(kv.first) + ": " + fmt("%llu", (unsigned long long)kv.second);
         } else n_unknown += kv.second;
     }
+    if (getenv("VERIF_DUMP")) { FILE *df = fopen(getenv("VERIF_DUMP"), "w"); if (df) { for (auto &v : all.viols) fprintf(df, "%s\t%s\t%s\n", v.finding.c_str(), esc(v.enc).c_str(), esc(v.detail).c_str()); fclose(df); } }
     int shown = 0, confirmed = 0;
     for (auto &v : all.viols) {
         if (!v.finding.empty() && known_set.count(v.finding)) continue;
